@@ -37,25 +37,34 @@ Section Spec.
   Definition s_subscription_kw : name := [115;117;98;115;99;114;105;112;116;105;111;110]%N.
 
   (** ** the visible schema *)
+  (** a type named in the document: visible only with its required features *)
   Definition type_of (n : name) : option type_body := named_type S F n.
+  (** the parent type of a selection set is not named by the document: it is the root type, the
+      type a field definition returns, or a type condition that was found to be visible *)
+  Definition parent_body (n : name) : option type_body := raw_body S n.
   Definition composite (n : name) : bool :=
-    match type_of n with Some b => is_composite_body b | None => false end.
+    match parent_body n with Some b => is_composite_body b | None => false end.
   Definition typename_def : field_def :=
     {| f_type := StNonNull (StNamed [83;116;114;105;110;103]%N); f_args := []; f_req := [] |}.  (* String! *)
 
-  (** the definition of field [f] selected on a value of type [parent] (GetFieldDefinition) *)
+  (** the field [f] declared by type [parent] and visible with the enabled features (on the query
+      root type also the introspection fields __schema and __type) *)
+  Definition declared_field_of (parent : name) (f : name) : option field_def :=
+    match parent_body parent with
+    | Some (TObject fields _) =>
+        match get_field F fields f with
+        | Some d => Some d
+        | None => if name_eqb parent (s_query S) then assoc f (s_meta S) else None
+        end
+    | Some (TInterface fields) => get_field F fields f
+    | _ => None
+    end.
+
+  (** the definition of field [f] selected on a value of type [parent] (GetFieldDefinition):
+      __typename exists on every composite type *)
   Definition field_def_of (parent : name) (f : name) : option field_def :=
     if name_eqb f s_typename then (if composite parent then Some typename_def else None)
-    else
-      match type_of parent with
-      | Some (TObject fields _) =>
-          match get_field F fields f with
-          | Some d => Some d
-          | None => if name_eqb parent (s_query S) then assoc f (s_meta S) else None
-          end
-      | Some (TInterface fields) => get_field F fields f
-      | _ => None
-      end.
+    else declared_field_of parent f.
 
   Definition result_type (d : field_def) : name := unwrapped (f_type d).
 
@@ -87,7 +96,7 @@ Section Spec.
     match s with
     | SField _ _ f _ _ _ _ =>
         match parent with
-        | Some p => match field_def_of p f with Some d => Some (result_type d) | None => None end
+        | Some p => match declared_field_of p f with Some d => Some (result_type d) | None => None end
         | None => None
         end
     | SInline (Some (c, _)) _ _ _ => known c
@@ -297,7 +306,7 @@ Section Spec.
 
   Definition leaf_sty (t : sty) : bool :=
     match t with
-    | StNamed n => match type_of n with Some (TScalar _) | Some (TEnum _) => true | _ => false end
+    | StNamed n => match parent_body n with Some (TScalar _) | Some (TEnum _) => true | _ => false end
     | _ => false
     end.
 
@@ -334,7 +343,7 @@ Section Spec.
     end.
 
   Definition is_object (n : name) : bool :=
-    match type_of n with Some (TObject _ _) => true | _ => false end.
+    match parent_body n with Some (TObject _ _) => true | _ => false end.
 
   (** FieldsInSetCanMerge(set) *)
   Fixpoint fields_can_merge (fuel : nat) (set : list cfield) : bool :=
@@ -474,7 +483,7 @@ Section Spec.
 
   (** 5.5.2.3: GetPossibleTypes over the visible schema *)
   Definition possible (n : name) : list name :=
-    match type_of n with
+    match parent_body n with
     | Some (TObject _ _) => [n]
     | Some (TInterface _) =>
         flat_map (fun nt => match t_body (snd nt) with
@@ -484,8 +493,13 @@ Section Spec.
     | Some (TUnion members) => members
     | _ => []
     end.
+  (** a fragment on [cond] can apply within a selection set on [parent] *)
   Definition applicable (parent cond : name) : bool :=
-    if composite parent && composite cond then existsb (fun x => mem x (possible cond)) (possible parent) else true.
+    match type_of cond with
+    | Some b => if is_composite_body b && composite parent
+                then existsb (fun x => mem x (possible cond)) (possible parent) else true
+    | None => true
+    end.
   Definition valid_5_5_2_3 : bool :=
     forallb (fun o => match o with
                       | SpreadOcc (Some parent) target _ =>
@@ -534,7 +548,7 @@ Section Spec.
               | _ => if allow then on_type t' true else [FMismatch]
               end
           | StNamed n =>
-              match type_of n with
+              match parent_body n with
               | Some (TScalar k) => if spec_scalar_accepts k v then [] else [FMismatch]
               | Some (TEnum vals) =>
                   match v with VEnum _ x _ => if mem x vals then [] else [FMismatch] | _ => [FMismatch] end
@@ -623,7 +637,7 @@ Section Spec.
         flat_map (usages_value item false) vs
     | VObject _ fs _ =>
         let defs := match t with
-                    | Some t' => match type_of (unwrapped t') with Some (TInput ds) => Some ds | _ => None end
+                    | Some t' => match parent_body (unwrapped t') with Some (TInput ds) => Some ds | _ => None end
                     | None => None
                     end in
         flat_map (fun f => match f with
